@@ -65,6 +65,8 @@ theorem decText_natText (n : Nat) : DecText (natText n) := by
 
 def NoQuote (s : Str) : Prop := ∀ c ∈ s, c ≠ '"'
 
+instance (s : Str) : Decidable (NoQuote s) := by unfold NoQuote; infer_instance
+
 theorem lineCanon_num {key : String} {n : Nat} (hk : keyOkB key.toList = true) :
     LineCanon { key := key.toList, index := none, value := .num (decTok n) } :=
   ⟨⟨(keyOk_of_B hk).1, ⟨(by intro m hm; cases hm), decText_natText n⟩⟩, (keyOk_of_B hk).2⟩
